@@ -3,7 +3,7 @@
    them unreachable.  That the model has the same accept / reject / crash behaviour as the code is the
    correspondence leg of lib/c13.py; termination and stack / memory use are runtime behaviour that the
    model cannot exhibit (checked by running the code). *)
-From Az65 Require Import Base Token Expr CSpec ExprFacts ExprParse ExprParseFacts Linker Asm Arch ArchTables Run Full FullFacts CrashFacts SafeFacts Utf8 CharReader Lexer.
+From Az65 Require Import Base Token Expr CSpec ExprFacts ExprParse ExprParseFacts Linker Asm Arch ArchTables Run Full FullFacts CrashFacts SafeFacts FullSafe Utf8 CharReader Lexer.
 
 (* (1) The evaluator never panics on a compiled expression, whatever the symbol table of compiled
        definitions: cycles (q1 = q1, a = b / b = a) are detected, division and remainder by zero and
@@ -39,6 +39,24 @@ Theorem C13_run_asm_never_panics :
   forall a files ts c, run_asm a files ts = Crash c -> c = CkFuel.
 Proof. exact run_asm_never_panics. Qed.
 Print Assumptions C13_run_asm_never_panics.
+
+(* (4') The same for the FULL pipeline model - token pump with macro recording and replay, @string @label
+        @count @hex @bin @getmeta @parse @each @isdef, backslash continuation, the expression ladder over
+        the pump, every statement arm incl. @macro @include @incbin @struct @if, the instruction parsers
+        and the linker - for every set of files, search paths, nesting and token sequence.  Additional
+        invariant (FullSafe.FInv): every macro source on the source stack only refers to argument slots
+        it has, every recorded macro body only to parameters it declares. *)
+Theorem C13_run_full_never_panics :
+  forall budget rows names regs files lex cwd paths root c,
+    rows_wf rows = true ->
+    run_full budget rows names regs files lex cwd paths root = Crash c -> c = CkFuel.
+Proof. exact run_full_never_panics. Qed.
+Print Assumptions C13_run_full_never_panics.
+
+(* the three row tables in use are well formed *)
+Theorem C13_tables_wf : rows_wf z80_rows = true /\ rows_wf sm83_rows = true /\ rows_wf mos_rows = true.
+Proof. exact tables_wf. Qed.
+Print Assumptions C13_tables_wf.
 
 (* (5) The linker alone, for any symbol table of parser-built definitions and any links whose patch
        ranges lie inside the image: no panic (the situation the seeded change C13-2 breaks). *)
